@@ -37,6 +37,8 @@ import (
 	"github.com/nuts-foundation/nuts-node/vdr/didsubject"
 	"github.com/nuts-foundation/nuts-node/vdr/resolver"
 	"slices"
+	"sort"
+	"strconv"
 	"strings"
 	"time"
 )
@@ -429,7 +431,28 @@ func (u *clientUpdater) updateService(ctx context.Context, service ServiceDefini
 	if err != nil {
 		return fmt.Errorf("failed to wipe on testSeed change (service=%s, testSeed=%s): %w", service.ID, seed, err)
 	}
-	for _, presentation := range presentations {
+	// Process the entries in the order in which they were registered, and store every entry with its own timestamp (instead of the server's latest).
+	// Otherwise, when an entry can't be processed (e.g. database error or the node being stopped), the other entries in the response
+	// would never be retrieved again, since the stored timestamp would already be past them.
+	type entry struct {
+		timestamp    int
+		presentation vc.VerifiablePresentation
+	}
+	entries := make([]entry, 0, len(presentations))
+	for key, presentation := range presentations {
+		timestamp, err := strconv.Atoi(key)
+		if err != nil || timestamp <= 0 || timestamp > serverTimestamp {
+			// should not happen (except for an entry that is registered while the server is building the response):
+			// the server's timestamp is the safe choice, since the request will then be repeated if the response is not completely processed.
+			timestamp = serverTimestamp
+		}
+		entries = append(entries, entry{timestamp: timestamp, presentation: presentation})
+	}
+	sort.SliceStable(entries, func(i, j int) bool {
+		return entries[i].timestamp < entries[j].timestamp
+	})
+	for _, curr := range entries {
+		presentation := curr.presentation
 		// A Discovery Service only accepts JWT presentations that have an ID. Ignore anything else the server returns,
 		// since the ID and JWT are dereferenced below (and the entry could never be valid).
 		if presentation.Format() != vc.JWTPresentationProofFormat || presentation.ID == nil || presentation.JWT() == nil {
@@ -455,7 +478,7 @@ func (u *clientUpdater) updateService(ctx context.Context, service ServiceDefini
 		// it won't be returned in a search if invalid
 		// the validator will set the validated flag to true when it's valid
 		// it'll also remove it from the store if it's invalidated later
-		if record, err := u.store.add(service.ID, presentation, seed, serverTimestamp); err != nil {
+		if record, err := u.store.add(service.ID, presentation, seed, curr.timestamp); err != nil {
 			return fmt.Errorf("failed to store presentation (service=%s, id=%s): %w", service.ID, presentation.ID, err)
 		} else if err = u.verifier(service, presentation); err == nil {
 			// valid, immediately activate
